@@ -27,7 +27,7 @@ def q():
         from quantem.diffractive_imaging.dataset_models import PtychographyDatasetRaster
         from quantem.diffractive_imaging.detector_models import DetectorPixelated
         from quantem.diffractive_imaging.object_models import ObjectPixelated
-        from quantem.diffractive_imaging.probe_models import ProbePixelated
+        from quantem.diffractive_imaging.probe_models import ProbeParametric, ProbePixelated
         from quantem.diffractive_imaging.ptychography import Ptychography
 
         h = _H()
@@ -37,6 +37,7 @@ def q():
         h.DetectorPixelated = DetectorPixelated
         h.ObjectPixelated = ObjectPixelated
         h.ProbePixelated = ProbePixelated
+        h.ProbeParametric = ProbeParametric
         h.Ptychography = Ptychography
         _Q = h
     return _Q
@@ -128,14 +129,29 @@ def build(case):
     )
     M, S = int(case["M"]), int(case["S"])
     thick = case.get("thick") if S > 1 else None
-    if case.get("probe_init", "array") == "params":
+    init_p = case.get("probe_init", "array")
+    tilt = bool(case.get("learn_tilt"))
+    if init_p == "parametric":
+        # parametric probe: the optimiser drives several same-shaped (0-d) tensors, one per aberration
+        pm = Q.ProbeParametric.from_params(
+            probe_params={
+                "energy": g["energy"],
+                "semiangle_cutoff": float(case.get("semiangle", 20.0)),
+                "aberration_coefs": {"C10": float(case.get("defocus", 50.0)), "C12": 8.0, "phi12": 0.4},
+            },
+            rng=seed,
+        )
+    elif init_p == "params":
         pm = Q.ProbePixelated.from_params(
             probe_params={"energy": g["energy"], "semiangle_cutoff": float(case.get("semiangle", 20.0)), "defocus": float(case.get("defocus", 50.0))},
             num_probes=M,
+            learn_probe_tilt=tilt,
             rng=seed,
         )
     else:
-        pm = Q.ProbePixelated.from_array(probe_array=sim_probe(R, C, seed + 1, M), probe_params={"energy": g["energy"]}, rng=seed)
+        pm = Q.ProbePixelated.from_array(
+            probe_array=sim_probe(R, C, seed + 1, M), probe_params={"energy": g["energy"]}, learn_probe_tilt=tilt, rng=seed
+        )
 
     def mk(om, pmodel):
         pt = Q.Ptychography.from_models(dset=pdset, obj_model=om, probe_model=pmodel, detector_model=Q.DetectorPixelated(), rng=seed, verbose=0)
